@@ -97,6 +97,15 @@ def pick(sym, n):
     assume(False)
 
 
+def int_harness(fn, names):
+    """Build `h(<names>: int ...)` calling fn(*values): fixed-arity symbolic int parameters
+    (the length of a symbolic list would itself be forked on)."""
+    params = ", ".join(f"{n}: int" for n in names)
+    ns = {"_fn": fn}
+    exec(f"def h({params}):\n    return _fn({', '.join(names)})\n", ns)
+    return ns["h"]
+
+
 # --------------------------------------------------------------------------
 # z3 accounting
 # --------------------------------------------------------------------------
@@ -200,7 +209,7 @@ def explore(
     max_paths: Optional[int] = None,
     stop_on_refute: bool = True,
     max_samples: int = 3,
-    max_cex: int = 3,
+    max_cex: int = 12,
     expected_failure: Callable[[BaseException], bool] = lambda e: False,
 ) -> XResult:
     """Explore every path of ``harness`` over symbolic arguments.
@@ -226,6 +235,7 @@ def explore(
         raise PathWatchdog()
 
     signal.signal(signal.SIGALRM, _alarm)
+    seen_keys = set()
     z0 = dict(_Z3)
     t_wall = time.perf_counter()
     t_cpu = process_time()
@@ -262,7 +272,13 @@ def explore(
                     exc, stack = ef.user_exc
                     status = VerificationStatus.REFUTED
                     res.refuted += 1
-                    if len(res.counterexamples) < max_cex:
+                    d0 = getattr(exc, "detail", None)
+                    key = None
+                    if isinstance(d0, dict):
+                        key = "|".join(sorted(map(str, d0["fps"]))) if d0.get("fps") else d0.get("fp")
+                    key = key or (getattr(exc, "msg", None) or repr(exc))
+                    if key not in seen_keys and len(res.counterexamples) < max_cex:
+                        seen_keys.add(key)
                         tb = "".join(
                             traceback.format_exception(type(exc), exc, exc.__traceback__)
                         )[-3000:]
@@ -338,6 +354,8 @@ def run_concrete(harness: Callable, args: Dict[str, Any], case_id: str = "?"):
     except PropertyFailure as e:
         d = e.detail if isinstance(e.detail, dict) else {}
         fp = d.get("fp") or f"{case_id}:{e.msg}"
+        if d.get("fps"):
+            fp = list(d["fps"])
         return True, e.msg + (f" :: {e.detail!r}" if e.detail is not None else ""), fp
     except Reject:
         return False, "input outside the harness' assumed bounds", None
